@@ -105,6 +105,51 @@ def run(tier, seed):
             forced.clear()
         return out
     impl = asyncio.run(go())
+    # ---- an upstream slower than the front connection's own request timer (scaled: REQUEST_TIMEOUT 0.2 s, location timeout
+    # 1.0 s): the request is complete, so that timer must not answer for the proxy - a slow upstream is relayed, a stalled one
+    # gets 43 from the location timeout
+    async def slow():
+        import nauyaca.server.protocol as sp
+        from nauyaca.server.protocol import GeminiServerProtocol
+        loop = asyncio.get_running_loop()
+        h = ProxyHandler("gemini://up.example:1965", prefix="/", strip_prefix=False, timeout=1.0)
+        real = sp.REQUEST_TIMEOUT
+        sp.REQUEST_TIMEOUT = 0.2
+        outs = []
+        try:
+            for delay, reply in ((0.5, b"20 text/plain\r\nslow but fine"), (None, None)):
+                async def fake_cc(factory, host=None, port=None, ssl=None, server_hostname=None, **kw):
+                    proto = factory(); tr = cd.RecTransport([]); proto.connection_made(tr)
+                    if delay is not None:
+                        loop.call_later(delay, lambda: (proto.data_received(reply), proto.connection_lost(None)))
+                    return tr, proto
+                loop.create_connection = fake_cc
+                acts = []
+                try:
+                    p = GeminiServerProtocol(h.handle)
+                    t = sd.FakeTransport(acts, ("192.0.2.1", 5), None)
+                    p.connection_made(t)
+                    p.data_received(b"gemini://front.example/x\r\n")
+                    t0 = loop.time()
+                    while not t.closed and loop.time() - t0 < 2.5:
+                        await asyncio.sleep(0.02)
+                    if p.timeout_handle: p.timeout_handle.cancel()
+                finally:
+                    del loop.create_connection
+                wire = b"".join(a[1] for a in acts[: next((i for i, a in enumerate(acts) if a[0] == "c"), len(acts))] if a[0] == "w")
+                outs.append((delay, reply, wire, t.closed))
+        finally:
+            sp.REQUEST_TIMEOUT = real
+        return outs
+    for delay, reply, wire, closed in asyncio.run(slow()):
+        res.evaluations += 1; res.count("slow-upstream")
+        res.nontriv(("slow-upstream", delay))
+        good = (wire == reply) if delay is not None else wire.startswith(b"43 ")
+        if not good or not closed:
+            res.violations.append({"clause": "a slow upstream is relayed / a stalled one answered 43 - not by the front connection's request timer",
+                                   "signature": "C18:slow-upstream",
+                                   "case": {"upstream_answers_after_s": delay, "request_timeout_s": 0.2, "location_timeout_s": 1.0},
+                                   "trace": {"downstream": wire[:80].decode("latin-1"), "closed": closed}})
     def enc_up(up):
         if up[0] == "stream": return ["stream", up[1], [up[2]] if up[2] else []]
         return [up[0]]
